@@ -7,6 +7,12 @@ U32 = 0xffffffff
 def boundary_or_random(lo, hi):
     cands = {lo, lo + 1, -1, 0, 1, 2 ** 7 - 1, 2 ** 7, 2 ** 8 - 1, 2 ** 8, 2 ** 15 - 1, 2 ** 15, 2 ** 16 - 1, 2 ** 16,
              2 ** 31 - 1, 2 ** 31, 2 ** 31 + 1, 2 ** 32 - 1, hi - 1, hi}
+    # values that MEAN something in Bitcoin and that code is therefore tempted to special-case: the lock-time threshold between
+    # heights and timestamps, the final / replaceable / relative-lock sequence numbers and their flag bits, version 2 and the
+    # version-bits prefix, one coin, the subsidy, the money supply, dust, the difficulty-1 target words
+    cands |= {499999999, 500000000, 500000001, 0xfffffffe, 0xfffffffd, 0x80000000, 0x00400000, 0x003fffff, 0x0000ffff, 0x00400001,
+              0x80400000, 2, 3, 4, 0x20000000, 0x20000001, 0x3fffffff, 546, 10 ** 8, 50 * 10 ** 8, 21 * 10 ** 14, 21 * 10 ** 14 + 1,
+              0x1d00ffff, 0x207fffff, 0x1e0377ae, 1231006505}
     cands = sorted(c for c in cands if lo <= c <= hi)
     return st.one_of(st.sampled_from(cands), st.integers(lo, hi))
 
@@ -16,7 +22,8 @@ i32 = boundary_or_random(-2 ** 31, 2 ** 31 - 1)
 i64 = boundary_or_random(-2 ** 63, 2 ** 63 - 1)
 u64 = boundary_or_random(0, 2 ** 64 - 1)
 MAX_MONEY = 21000000 * 100000000
-values = st.one_of(st.sampled_from([-2 ** 63, -1, 0, 1, MAX_MONEY, MAX_MONEY + 1, 2 ** 63 - 1]), st.integers(0, MAX_MONEY),
+values = st.one_of(st.sampled_from([-2 ** 63, -1, 0, 1, MAX_MONEY, MAX_MONEY + 1, 2 ** 63 - 1, 546, 10 ** 8, 50 * 10 ** 8, MAX_MONEY - 1, 2 ** 32, 2 ** 53, 2 ** 53 + 1]),
+                   st.integers(0, MAX_MONEY),
                    i64)
 
 SMALL_LENS = st.integers(0, 40)
@@ -57,6 +64,9 @@ def tx_model(draw, max_in=5, max_out=5, big=True, witness='any', min_out=0, scri
     nin = draw(st.one_of(st.integers(1, max_in), st.integers(1, 2)))
     nout = draw(st.integers(min_out, max_out))
     vin = [[draw(hash32).hex(), draw(u32), draw(sc).hex(), draw(u32)] for _ in range(nin)]
+    if draw(st.integers(0, 11)) == 0:
+        # a NULL outpoint (all-zero hash, index 2^32-1) - what a coinbase input looks like - in the first, the last or the only input
+        vin[draw(st.sampled_from([0, -1]))][0:2] = ['00' * 32, U32]
     vout = [[draw(values), draw(sc).hex()] for _ in range(nout)]
     if witness == 'any':
         mode = draw(st.sampled_from(['none', 'noentries', 'empty', 'some', 'some']))
